@@ -398,12 +398,38 @@ def make_env(case):
     return CVRPEnv(generator_params=dict(num_loc=case["n"], capacity=15.0))
 
 
+class ActiveDropout(Exception):
+    """A model built with the library's defaults contains a dropout with p > 0 (see _assert_deterministic_module)."""
+
+    def __init__(self, where, what):
+        super().__init__(f"{where}: {what}")
+        self.where, self.what = where, what
+
+
 def _assert_deterministic_module(mod):
-    for m in mod.modules():
+    """Every loss identity of this check (and PPO's own ratio, which re-evaluates stored actions in training mode)
+    needs the training-mode forward pass of policy and critic to be a function of their inputs.  On the pinned tree
+    every dropout of the bundled policies / critics is constructed with p = 0 (where the building block defaults to
+    p > 0 the constructor passes dropout=0.0 explicitly); a model built with the documented defaults that carries an
+    active dropout is reported (see _dropout_guard), not silently normalised."""
+    for name, m in mod.named_modules():
         if isinstance(m, (torch.nn.Dropout, torch.nn.AlphaDropout)) and m.p > 0:
-            raise HarnessError(f"policy contains active dropout {m}")
+            raise ActiveDropout(f"{type(mod).__name__}.{name}", f"{m}")
         if getattr(m, "attention_dropout", 0.0):
-            raise HarnessError(f"policy contains attention dropout in {type(m).__name__}")
+            raise ActiveDropout(f"{type(mod).__name__}.{name}", f"attention dropout in {type(m).__name__}")
+
+
+def _dropout_guard(fn):
+    def run(case, ctx):
+        try:
+            return fn(case, ctx)
+        except ActiveDropout as e:
+            ctx.violation(f"active_dropout_in_default_model|{e.where}",
+                          f"a model built with the library's default arguments contains {e.what} at {e.where}: its "
+                          f"training-mode log-likelihoods are not a function of its inputs (the log-likelihood of the "
+                          f"same actions changes from call to call, PPO's ratio does not start at one)")
+    run.__name__ = getattr(fn, "__name__", "run")
+    return run
 
 
 def make_policy(case, cls=None, seed_offset=0):
@@ -1441,27 +1467,27 @@ def _minimize(case):
 
 
 SUBS = [
-    Sub("reinforce", exec_reinforce, strategy=lambda tier: reinforce_cases(tier),
+    Sub("reinforce", _dropout_guard(exec_reinforce), strategy=lambda tier: reinforce_cases(tier),
         budget={"quick": 960, "thorough": 4000}, shards=16, shrink=False, minimize=_minimize, weight=3.0),
-    Sub("pomo", exec_pomo, strategy=lambda tier: pomo_cases(tier),
+    Sub("pomo", _dropout_guard(exec_pomo), strategy=lambda tier: pomo_cases(tier),
         budget={"quick": 288, "thorough": 1200}, shards=8, shrink=False, minimize=_minimize),
-    Sub("symnco", exec_symnco, strategy=lambda tier: symnco_cases(tier),
+    Sub("symnco", _dropout_guard(exec_symnco), strategy=lambda tier: symnco_cases(tier),
         budget={"quick": 288, "thorough": 1200}, shards=8, shrink=False, minimize=_minimize),
-    Sub("a2c", exec_a2c, strategy=lambda tier: a2c_cases(tier),
+    Sub("a2c", _dropout_guard(exec_a2c), strategy=lambda tier: a2c_cases(tier),
         budget={"quick": 144, "thorough": 600}, shards=4, shrink=False, minimize=_minimize),
-    Sub("ppo", exec_ppo, strategy=lambda tier: ppo_cases(tier),
+    Sub("ppo", _dropout_guard(exec_ppo), strategy=lambda tier: ppo_cases(tier),
         budget={"quick": 288, "thorough": 1200}, shards=8, shrink=False, minimize=_minimize, weight=2.0),
     # the large-instance class of `ppo` alone (same executor): a guaranteed number of cases per run
-    Sub("ppo_large", exec_ppo, strategy=lambda tier: ppo_large_cases(),
+    Sub("ppo_large", _dropout_guard(exec_ppo), strategy=lambda tier: ppo_large_cases(),
         budget={"quick": 24, "thorough": 160}, shards=4, shrink=False, minimize=_minimize),
-    Sub("rollout_eval", exec_rollout_eval, strategy=lambda tier: rollout_eval_cases(tier),
+    Sub("rollout_eval", _dropout_guard(exec_rollout_eval), strategy=lambda tier: rollout_eval_cases(tier),
         budget={"quick": 144, "thorough": 800}, shards=8, shrink=False, minimize=_minimize),
     # zoo models with their own loss / rollout layout (vf/c16_zoo_loss.py)
-    Sub("zoo_loss", _zoo.exec_zoo, strategy=lambda tier: _zoo.zoo_cases(tier),
+    Sub("zoo_loss", _dropout_guard(_zoo.exec_zoo), strategy=lambda tier: _zoo.zoo_cases(tier),
         budget={"quick": 288, "thorough": 1200}, shards=8, shrink=False, minimize=_zoo.minimize_zoo, weight=2.0),
     # the two further bundled PPO implementations (vf/c16_ppo_variants.py)
-    Sub("stepwise_ppo", _ppov.exec_stepwise, strategy=lambda tier: _ppov.stepwise_cases(tier),
+    Sub("stepwise_ppo", _dropout_guard(_ppov.exec_stepwise), strategy=lambda tier: _ppov.stepwise_cases(tier),
         budget={"quick": 288, "thorough": 1200}, shards=8, shrink=False, minimize=_ppov.minimize_stepwise, weight=2.0),
-    Sub("nstep_ppo", _ppov.exec_nstep, strategy=lambda tier: _ppov.nstep_cases(tier),
+    Sub("nstep_ppo", _dropout_guard(_ppov.exec_nstep), strategy=lambda tier: _ppov.nstep_cases(tier),
         budget={"quick": 288, "thorough": 1200}, shards=8, shrink=False, minimize=_ppov.minimize_nstep, weight=2.0),
 ]
